@@ -31,9 +31,10 @@ func (*c13) Oracle(ci, oi any) []hx.Violation {
 		return vs
 	}
 	pstr := func(p []string) string { return strings.Join(p, ".") }
+	var revs []c13Rev // the stored revisions of the release being judged
 	rev := func(n int) *c13Rev {
-		if n >= 1 && n <= len(obs.Revs) {
-			return &obs.Revs[n-1]
+		if n >= 1 && n <= len(revs) {
+			return &revs[n-1]
 		}
 		return nil
 	}
@@ -66,137 +67,196 @@ func (*c13) Oracle(ci, oi any) []hx.Violation {
 			}
 		}
 	}
-	n := 0 // revisions stored so far
-	var before []string // statuses of the stored revisions before the step
+	// the map the caller supplied is, after the call, what it was right before it: the "new
+	// values" of the property text are the caller's, and a caller that hands the same parsed
+	// overrides to a second upgrade (another release, or the same release later) must be
+	// supplying the same values (the chart OBJECT being rewritten by --reuse-values is another
+	// matter: C04's K-C04-1; this is about the values map only)
 	for i, o := range c.Ops {
-		if i >= len(obs.Steps) {
-			break
+		if i < len(obs.Steps) && obs.Steps[i].ValsMutated && o.Kind != "rollback" {
+			add("caller-values-modified-by-"+o.Kind, fmt.Sprintf("step %d (%s on %s%s): the values map the caller supplied was %#v before the call and is %#v after it",
+				i, c13Mode(o), c13Names[o.Rel], c13ShareNote(o), c13Before(c, obs, i), obs.Steps[i].ValsOut))
 		}
-		st := obs.Steps[i]
-		prev := before
-		before = st.Statuses
-		// st.ValsMutated is recorded but not judged here (C04 judges the caller's map).
-		if len(st.Statuses) == n {
-			continue // nothing was stored by this step
+	}
+	for k := 0; k < c.nrel(); k++ {
+		ops, steps, idx := c13Project(c, obs, k)
+		revs = nil
+		if k < len(obs.Revs) {
+			revs = obs.Revs[k]
 		}
-		if len(st.Statuses) != n+1 {
-			add("revision-count", fmt.Sprintf("step %d (%s) changed the number of stored revisions from %d to %d", i, o.Kind, n, len(st.Statuses)))
-			break
-		}
-		// the revision values are carried forward from: the highest revision that had status
-		// deployed before the step; only when there is none, the newest one
-		base := 0
-		for v := len(prev); v >= 1; v-- {
-			if prev[v-1] == "deployed" {
-				base = v
+		n := 0              // revisions stored so far
+		var before []string // statuses of the stored revisions before the step
+		for j, o := range ops {
+			if j >= len(steps) {
 				break
 			}
-		}
-		if base == 0 {
-			base = len(prev)
-		}
-		cur := rev(base)
-		n++
-		nw := rev(n)
-		if nw == nil {
-			add("revision-missing", fmt.Sprintf("step %d (%s) stored revision %d but it is not in the history", i, o.Kind, n))
-			break
-		}
-		wantStatus := "deployed"
-		if !st.OK {
-			wantStatus = "failed"
-		}
-		if st.Statuses[n-1] != wantStatus {
-			add("new-revision-status", fmt.Sprintf("step %d (%s, ok=%v) stored revision %d with status %s", i, o.Kind, st.OK, n, st.Statuses[n-1]))
-		}
-		newv := o.Vals
-		if newv == nil {
-			newv = vtree{}
-		}
-		switch o.Kind {
-		case "install":
-			if !vtEqual(nw.Config, newv) {
-				add("install-config", fmt.Sprintf("step %d: install recorded %#v, given %#v", i, nw.Config, newv))
+			i := idx[j] // position in the chain, for the messages
+			st := steps[j]
+			prev := before
+			before = st.Statuses
+			if len(st.Statuses) == n {
+				continue // nothing was stored by this step
 			}
-			defaultsShow(i, "install", nw, o.Chart.Values, "new-defaults-apply", o.Chart)
-		case "rollback":
-			tv := o.Version
-			if tv == 0 {
-				tv = n - 2
+			if len(st.Statuses) != n+1 {
+				add("revision-count", fmt.Sprintf("step %d (%s) changed the number of stored revisions from %d to %d", i, o.Kind, n, len(st.Statuses)))
+				break
 			}
-			_ = cur
-			t := rev(tv)
-			if t == nil {
-				add("rollback-target", fmt.Sprintf("step %d: rollback to %d succeeded but that revision does not exist", i, tv))
-				continue
+			// the revision values are carried forward from: the highest revision that had status
+			// deployed before the step; only when there is none, the newest one
+			base := 0
+			for v := len(prev); v >= 1; v-- {
+				if prev[v-1] == "deployed" {
+					base = v
+					break
+				}
 			}
-			if !vtEqual(nw.Config, t.Config) {
-				add("rollback-config", fmt.Sprintf("step %d: rollback to %d recorded values %#v, the target has %#v", i, tv, nw.Config, t.Config))
+			if base == 0 {
+				base = len(prev)
 			}
-			if !vtEqual(nw.Rendered, t.Rendered) {
-				add("rollback-rendered", fmt.Sprintf("step %d: rollback to %d: templates saw %#v, the target's saw %#v", i, tv, nw.Rendered, t.Rendered))
+			cur := rev(base)
+			n++
+			nw := rev(n)
+			if nw == nil {
+				add("revision-missing", fmt.Sprintf("step %d (%s) stored revision %d but it is not in the history", i, o.Kind, n))
+				break
 			}
-		case "upgrade":
-			if cur == nil {
-				add("upgrade-without-release", fmt.Sprintf("step %d: upgrade succeeded with no stored revision", i))
-				continue
+			// what a revision records is fixed when it is stored: a later operation (on this or
+			// another release) must not change it
+			if st.Stored && !vtEqual(st.NewConfig, nw.Config) {
+				add("record-changed-later", fmt.Sprintf("step %d (%s on %s): revision %d recorded values %#v when it was stored, at the end of the chain it holds %#v", i, o.Kind, c13Names[k], n, st.NewConfig, nw.Config))
 			}
-			mode := "plain"
-			switch {
-			case o.Reset:
-				mode = "reset-values"
-			case o.Reuse:
-				mode = "reuse-values"
-			case o.RTR:
-				mode = "reset-then-reuse-values"
+			shared := ""
+			if o.Share > 0 {
+				shared = c13ShareNote(o)
+				if st.ValsIn != nil {
+					shared += fmt.Sprintf(" — an earlier call wrote into that object: it held %#v when this call began", st.ValsIn)
+				}
 			}
-			switch mode {
-			case "reset-values":
+			wantStatus := "deployed"
+			if !st.OK {
+				wantStatus = "failed"
+			}
+			if st.Statuses[n-1] != wantStatus {
+				add("new-revision-status", fmt.Sprintf("step %d (%s, ok=%v) stored revision %d with status %s", i, o.Kind, st.OK, n, st.Statuses[n-1]))
+			}
+			newv := o.Vals
+			if newv == nil {
+				newv = vtree{}
+			}
+			switch o.Kind {
+			case "install":
 				if !vtEqual(nw.Config, newv) {
-					add("reset-config", fmt.Sprintf("step %d: reset-values recorded %#v, the new values are %#v", i, nw.Config, newv))
+					add("install-config", fmt.Sprintf("step %d: install recorded %#v, given %#v%s", i, nw.Config, newv, shared))
 				}
-			case "plain":
-				want := newv
-				if len(newv) == 0 {
-					want = cur.Config
+				defaultsShow(i, "install", nw, o.Chart.Values, "new-defaults-apply", o.Chart)
+			case "rollback":
+				tv := o.Version
+				if tv == 0 {
+					tv = n - 2
 				}
-				if !vtEqual(nw.Config, want) {
-					add("plain-config", fmt.Sprintf("step %d: upgrade without flags recorded %#v, expected %#v (new values %#v, deployed %#v)", i, nw.Config, want, newv, cur.Config))
+				_ = cur
+				t := rev(tv)
+				if t == nil {
+					add("rollback-target", fmt.Sprintf("step %d: rollback to %d succeeded but that revision does not exist", i, tv))
+					continue
 				}
-			default:
-				for _, p := range orAllPaths(newv, cur.Config, nw.Config) {
-					if x, ok := orLeaf(p, newv); ok && x != nil {
-						if got, ok := orLeaf(p, nw.Config); !ok || !vtEqual(got, x) {
-							add("overlay-new-wins", fmt.Sprintf("step %d (%s): path %s: new value %#v, recorded %#v (%v)", i, mode, pstr(p), x, got, ok))
-						}
+				if !vtEqual(nw.Config, t.Config) {
+					add("rollback-config", fmt.Sprintf("step %d: rollback to %d recorded values %#v, the target has %#v", i, tv, nw.Config, t.Config))
+				}
+				if !vtEqual(nw.Rendered, t.Rendered) {
+					add("rollback-rendered", fmt.Sprintf("step %d: rollback to %d: templates saw %#v, the target's saw %#v", i, tv, nw.Rendered, t.Rendered))
+				}
+			case "upgrade":
+				if cur == nil {
+					add("upgrade-without-release", fmt.Sprintf("step %d: upgrade succeeded with no stored revision", i))
+					continue
+				}
+				mode := "plain"
+				switch {
+				case o.Reset:
+					mode = "reset-values"
+				case o.Reuse:
+					mode = "reuse-values"
+				case o.RTR:
+					mode = "reset-then-reuse-values"
+				}
+				switch mode {
+				case "reset-values":
+					if !vtEqual(nw.Config, newv) {
+						add("reset-config", fmt.Sprintf("step %d: reset-values recorded %#v, the new values are %#v%s", i, nw.Config, newv, shared))
 					}
-					// a new null laid over a key the deployed revision holds (whatever it holds:
-					// scalar, list or table) removes the key from the recorded values
-					if x, ok := vtLookup(p, newv); ok && x == nil {
-						if _, held := vtLookup(p, cur.Config); held {
-							if got, still := vtLookup(p, nw.Config); still {
-								add("overlay-null-removes", fmt.Sprintf("step %d (%s): path %s: new null over a deployed value, but the recorded values still have %#v", i, mode, pstr(p), got))
+				case "plain":
+					want := newv
+					if len(newv) == 0 {
+						want = cur.Config
+					}
+					if !vtEqual(nw.Config, want) {
+						add("plain-config", fmt.Sprintf("step %d: upgrade without flags recorded %#v, expected %#v (new values %#v, deployed %#v)%s", i, nw.Config, want, newv, cur.Config, shared))
+					}
+				default:
+					for _, p := range orAllPaths(newv, cur.Config, nw.Config) {
+						if x, ok := orLeaf(p, newv); ok && x != nil {
+							if got, ok := orLeaf(p, nw.Config); !ok || !vtEqual(got, x) {
+								add("overlay-new-wins", fmt.Sprintf("step %d (%s): path %s: new value %#v, recorded %#v (%v)%s", i, mode, pstr(p), x, got, ok, shared))
+							}
+						}
+						// a new null laid over a key the deployed revision holds (whatever it holds:
+						// scalar, list or table) removes the key from the recorded values
+						if x, ok := vtLookup(p, newv); ok && x == nil {
+							if _, held := vtLookup(p, cur.Config); held {
+								if got, still := vtLookup(p, nw.Config); still {
+									add("overlay-null-removes", fmt.Sprintf("step %d (%s): path %s: new null over a deployed value, but the recorded values still have %#v", i, mode, pstr(p), got))
+								}
+							}
+						}
+						if !orDefines(p, newv) {
+							want, wok := vtLookup(p, cur.Config)
+							got, gok := vtLookup(p, nw.Config)
+							if wok != gok || (wok && !vtEqual(want, got)) {
+								add("overlay-carries-forward", fmt.Sprintf("step %d (%s): path %s is not set by the new values: deployed revision has %#v (%v), recorded %#v (%v)%s", i, mode, pstr(p), want, wok, got, gok, shared))
 							}
 						}
 					}
-					if !orDefines(p, newv) {
-						want, wok := vtLookup(p, cur.Config)
-						got, gok := vtLookup(p, nw.Config)
-						if wok != gok || (wok && !vtEqual(want, got)) {
-							add("overlay-carries-forward", fmt.Sprintf("step %d (%s): path %s is not set by the new values: deployed revision has %#v (%v), recorded %#v (%v)", i, mode, pstr(p), want, wok, got, gok))
-						}
-					}
+				}
+				if mode == "reuse-values" {
+					defaultsShow(i, mode, nw, cur.Rendered, "old-defaults-stay", o.Chart)
+				} else {
+					defaultsShow(i, mode, nw, o.Chart.Values, "new-defaults-apply", o.Chart)
 				}
 			}
-			if mode == "reuse-values" {
-				defaultsShow(i, mode, nw, cur.Rendered, "old-defaults-stay", o.Chart)
-			} else {
-				defaultsShow(i, mode, nw, o.Chart.Values, "new-defaults-apply", o.Chart)
-			}
+		}
+		if n != len(revs) {
+			add("revision-count", fmt.Sprintf("%s: %d operations stored a revision but %d revisions are stored", c13Names[k], n, len(revs)))
 		}
 	}
-	if n != len(obs.Revs) {
-		add("revision-count", fmt.Sprintf("%d operations succeeded but %d revisions are stored", n, len(obs.Revs)))
-	}
 	return vs
+}
+
+func c13Mode(o c13Op) string {
+	switch {
+	case o.Kind != "upgrade":
+		return o.Kind
+	case o.Reset:
+		return "upgrade reset-values"
+	case o.Reuse:
+		return "upgrade reuse-values"
+	case o.RTR:
+		return "upgrade reset-then-reuse-values"
+	}
+	return "upgrade"
+}
+
+func c13ShareNote(o c13Op) string {
+	if o.Share > 0 {
+		return fmt.Sprintf(" [values: shared map object %d, handed to several operations]", o.Share)
+	}
+	return ""
+}
+
+// c13Before: the content of the supplied map right before step i
+func c13Before(c c13Case, obs c13Obs, i int) vtree {
+	if obs.Steps[i].ValsIn != nil {
+		return obs.Steps[i].ValsIn
+	}
+	return c.vals(c.Ops[i])
 }
